@@ -188,7 +188,7 @@ func emitX(id int, data []byte) {
 	fmt.Fprintf(out, "X\tx%d\t%s\t%s\t%s\n", id, hx.Hex(data), xc, xl)
 }
 
-func corr(seed uint64, n, exh int) {
+func corr(seed uint64, n, nt, exh int) {
 	id := 0
 	// exhaustive small scope: one message, every payload over the escape alphabet up to exh bytes
 	for _, t := range []uint{0, 3, 128, 255} {
@@ -232,6 +232,7 @@ func corr(seed uint64, n, exh int) {
 		}
 		id++
 	}
+	corrTyped(hx.NewRng(seed^0x7C17), &id, nt)
 }
 
 // ---------------------------------------------------------------- search
@@ -369,7 +370,7 @@ func checkList(ms []*rawMsg) {
 	}
 }
 
-func search(seed uint64, n, exh int) {
+func search(seed uint64, n, nt, exh int) {
 	for _, t := range []uint{0, 2, 0x80, 254, 255, 256} {
 		allStrings([]byte{0, 1, 3, 0x80, 0xff}, exh, func(p []byte) {
 			checkList([]*rawMsg{{t: t, pl: append([]byte{}, p...)}})
@@ -378,6 +379,13 @@ func search(seed uint64, n, exh int) {
 	r := hx.NewRng(seed ^ 0x5EA17)
 	for i := 0; i < n; i++ {
 		checkList(genMsgs(r, 1, 6, true))
+	}
+	rt := hx.NewRng(seed ^ 0x7EA17)
+	for i := 0; i < nt; i++ {
+		checkTyped(rt, i)
+		if i%4 == 0 {
+			checkTypedList(rt)
+		}
 	}
 	fmt.Fprintf(out, "EVALS\t%d\n", evals)
 }
@@ -391,13 +399,14 @@ func main() {
 	seed := fs.Uint64("seed", 0, "")
 	n := fs.Int("n", 1000, "")
 	exh := fs.Int("exh", 3, "")
+	nt := fs.Int("nt", 1000, "")
 	_ = fs.Parse(os.Args[2:])
 	defer out.Flush()
 	switch os.Args[1] {
 	case "corr":
-		corr(*seed, *n, *exh)
+		corr(*seed, *n, *nt, *exh)
 	case "search":
-		search(*seed, *n, *exh)
+		search(*seed, *n, *nt, *exh)
 	default:
 		fmt.Fprintln(os.Stderr, "unknown sub-command")
 		out.Flush()
